@@ -69,6 +69,10 @@ structure SchemaFacts (I : IState) (S : List Schema) (tags : List Nat) (trace : 
     (s.tns = I.tns ∧ ∃ p ∈ missingPairs I, t = ⟨p.1, typeQN (I.cls p.2)⟩)
   /-- the element of every message exists in the target namespace -/
   missing : ∀ p ∈ missingPairs I, ∃ s ∈ S, s.tns = I.tns ∧ ∃ t ∈ s.elements, t.name = p.1
+  /-- one schema per namespace, one definition per type / element name in it -/
+  uniqTns : (S.map (·.tns)).Nodup
+  uniqTypes : ∀ s ∈ S, (s.types.map (·.name)).Nodup
+  uniqElems : ∀ s ∈ S, (s.elements.map (·.name)).Nodup
 
 theorem any_of_exists_type (S : List Schema) (ns tn : String)
     (h : ∃ s ∈ S, s.tns = ns ∧ ∃ t ∈ s.types, t.name = tn) :
@@ -219,6 +223,14 @@ theorem order_graph (F : Facts07) (e : Enum) (he : e.Valid) (I : IState) (tiers 
     simp [IState.graph, hd, Deps.keys]
   · exact topo_complete F e he I.reprKey I.deps tiers h hd x
 
+theorem map_name_eq_keys {β : Type} (l : List (String × β)) (name : β → String) (h : ∀ kv ∈ l, name kv.2 = kv.1) :
+    (l.map (·.2)).map name = l.map (·.1) := by
+  induction l with
+  | nil => rfl
+  | cons x r ih =>
+    simp only [List.map_cons, List.cons.injEq]
+    exact ⟨h x List.mem_cons_self, ih (fun kv hkv => h kv (List.mem_cons_of_mem _ hkv))⟩
+
 theorem schemaFacts_of_build (F : Facts07) (e : Enum) (he : e.Valid) (I : IState) (hw : WfParts I)
     (schemas : List Schema) (tr : List String) (hb : buildSchemas F e I = .ok (schemas, tr)) :
     ∃ tags trace, SchemaFacts I schemas tags trace ∧ ∀ x ∈ trace, x ∈ tr := by
@@ -232,10 +244,12 @@ theorem schemaFacts_of_build (F : Facts07) (e : Enum) (he : e.Valid) (I : IState
      (fun kv hkv t ht' => by
         simp only [List.mem_singleton] at hkv; subst hkv; cases ht')⟩
   have hhead := headTns_mainLoop I tiers.flatten ⟨[], [(I.tns, ⟨[], []⟩)], []⟩ ⟨_, _, rfl⟩
+  have hkn := keysNodup_mainLoop I tiers.flatten ⟨[], [(I.tns, ⟨[], []⟩)], []⟩
+    ⟨by simp, fun kv hkv => by simp only [List.mem_singleton] at hkv; subst hkv; exact ⟨List.nodup_nil, List.nodup_nil⟩⟩
   -- name the final state
   have hst : schemaState I tiers = mainLoop I tiers.flatten ⟨[], [(I.tns, ⟨[], []⟩)], []⟩ := rfl
   rw [hst] at hs hsch htr
-  generalize mainLoop I tiers.flatten ⟨[], [(I.tns, ⟨[], []⟩)], []⟩ = st at hspec hhead hs hsch htr
+  generalize mainLoop I tiers.flatten ⟨[], [(I.tns, ⟨[], []⟩)], []⟩ = st at hspec hhead hkn hs hsch htr
   obtain ⟨hq, ⟨hTF, hEF⟩, _, htags⟩ := hspec
   obtain ⟨info0, irest, hinfos⟩ := hhead
   have hcorr := schemaLoop_ok F e I st.infos ss tr' hs
@@ -303,7 +317,7 @@ theorem schemaFacts_of_build (F : Facts07) (e : Enum) (he : e.Valid) (I : IState
     rcases hq j hj with h | h
     · cases h
     · exact h
-  refine ⟨st.tags, st.trace, ⟨?_, ?_, ?_, ?_, ?_, ?_, ?_⟩, ?_⟩
+  refine ⟨st.tags, st.trace, ⟨?_, ?_, ?_, ?_, ?_, ?_, ?_, ?_, ?_, ?_⟩, ?_⟩
   · intro j hj hk
     rcases done j hj with h | ⟨h1, h2, _⟩
     · exact absurd h hk
@@ -355,6 +369,37 @@ theorem schemaFacts_of_build (F : Facts07) (e : Enum) (he : e.Valid) (I : IState
     obtain ⟨kv, hkv, hk1⟩ := List.mem_map.mp this
     refine ⟨{ s0 with elements := E.1.map (·.2) }, by rw [hsch]; exact List.mem_cons_self, hc0t, kv.2, List.mem_map.mpr ⟨kv, hkv, rfl⟩, ?_⟩
     rw [knEE kv hkv, hk1]
+  · -- one schema per namespace
+    rw [hsch]
+    have e1 : rest.map (·.tns) = irest.map (·.1) := by
+      have := congrArg (List.map (·.1)) hcr
+      rw [List.map_map, List.map_map] at this
+      exact this
+    have hk := hkn.1
+    rw [hinfos] at hk
+    simpa [List.map_cons, hc0t, e1] using hk
+  · intro s hs'
+    rw [hsch] at hs'
+    rcases List.mem_cons.mp hs' with rfl | hs'
+    · simp only
+      rw [hc0ty, map_name_eq_keys _ _ (knT _ h0mem)]
+      exact (hkn.2 _ h0mem).1
+    · obtain ⟨kv, hkv, hp⟩ := corr_of_mem_ss rest irest hcr s hs'
+      have hkv' : kv ∈ st.infos := by rw [hinfos]; exact List.mem_cons_of_mem _ hkv
+      have e2 : s.types = kv.2.types.map (·.2) := congrArg (·.2.1) hp
+      rw [e2, map_name_eq_keys _ _ (knT _ hkv')]
+      exact (hkn.2 _ hkv').1
+  · intro s hs'
+    rw [hsch] at hs'
+    rcases List.mem_cons.mp hs' with rfl | hs'
+    · simp only
+      rw [map_name_eq_keys _ _ knEE, ← hE]
+      exact missingLoop_keys_nodup I _ _ (hkn.2 _ h0mem).2
+    · obtain ⟨kv, hkv, hp⟩ := corr_of_mem_ss rest irest hcr s hs'
+      have hkv' : kv ∈ st.infos := by rw [hinfos]; exact List.mem_cons_of_mem _ hkv
+      have e2 : s.elements = kv.2.elements.map (·.2) := congrArg (·.2.2) hp
+      rw [e2, map_name_eq_keys _ _ (knE _ hkv')]
+      exact (hkn.2 _ hkv').2
   · intro x hx
     rw [htr]
     exact List.mem_append_left _ (List.mem_append_left _ hx)
@@ -426,10 +471,10 @@ theorem partsFrom_messagesLoop (I : IState) (all : List Meth) (ms : List Meth) (
 
 /-- **every `type=`, `base=` and `element=` reference resolves** to a definition in the document or an XSD builtin,
     and is written with a declared prefix -/
-theorem schema_refs_closed_general (F : Facts07) (e : Enum) (he : e.Valid) (I : IState) (url : String) (d : Doc)
+theorem schema_refs_closed_general (F : Facts07) (hM : F.messageDedup = .perDocument) (e : Enum) (he : e.Valid) (I : IState) (url : String) (d : Doc)
     (h : gen F e I url = .ok d) (hwf : I.wf = true) :
     (∀ q ∈ d.typeRefs, d.typeDefined q = true) ∧ (∀ q ∈ d.elemRefs, d.elemDefined q = true) := by
-  obtain ⟨schemas, tr, hb, hd⟩ := gen_ok F e I url d h
+  obtain ⟨schemas, tr, hb, hd⟩ := gen_ok F hM e I url d h
   have hw := wf_unpack I hwf
   obtain ⟨tags, trace, hf, htr⟩ := schemaFacts_of_build F e he I hw schemas tr hb
   have hinv := init_inv I hw.prefNodup hw.tnsFresh hw.tnsPref
@@ -544,9 +589,9 @@ theorem header_request_mem (I : IState) (m : Meth) (hm : m ∈ allMethods I) (hs
   · left; right; rw [h1]; simp
 
 /-- **every `soap:header/@part` names a part of the message the header refers to** -/
-theorem header_parts_general (F : Facts07) (e : Enum) (I : IState) (url : String) (d : Doc)
+theorem header_parts_general (F : Facts07) (hM : F.messageDedup = .perDocument) (e : Enum) (I : IState) (url : String) (d : Doc)
     (h : gen F e I url = .ok d) (hwf : I.wf = true) : ∀ bh ∈ d.headerRefs, d.headerPartOk bh = true := by
-  obtain ⟨schemas, tr, _, rfl⟩ := gen_ok F e I url d h
+  obtain ⟨schemas, tr, _, rfl⟩ := gen_ok F hM e I url d h
   have hw := wf_unpack I hwf
   intro bh hbh
   simp only [Doc.headerRefs, List.mem_flatMap] at hbh
